@@ -373,7 +373,8 @@ def frozen_table(idx, fi):
                              "self.matcher.csvpath.line_monitor.is_last_line()": [True, False],
                              "self.matcher.csvpath.scanner": [Obj("scanner")]},
                     handlers={".matches": vote})
-        paths = it.run_all(fi, store={"self.children": [Obj("c0")], "self.left": Obj("left"), "self.right": Obj("right"), FZ: init})
+        # (the abstract objects are named by their store paths, so that a local alias `left = self.left` denotes the same call texts)
+        paths = it.run_all(fi, store={"self.children": [Obj("c0")], "self.left": Obj("self.left"), "self.right": Obj("self.right"), FZ: init})
         for p in paths:
             n += 1
             if p.result[0] != "return":
@@ -386,9 +387,9 @@ def frozen_table(idx, fi):
                 else:
                     bad.setdefault(FROZEN_ASPECTS[1], f"{cfg}: the path is left with is_frozen={final!r} although it was not frozen on entry: every later component of the line "
                                                       "(assignments, push(), fail_and_stop(), …) becomes a no-op")
-            overrides = fi.qual == "Last._decide_match" or (p.atom("self.left.override_frozen()") is True and all(v for t, v in p.choices if t.startswith("isinstance:")))
+            overrides = fi.qual == "Last._decide_match" or (p.atom("self.left.override_frozen()") is True and all(v for t, v in p.choices if t.startswith("isinstance:") and t.rstrip(")").endswith("Function")))
             for who, fz in [c[1] for c in p.calls("component.matches")]:
-                consequence = who in ("right", "c0")
+                consequence = who in ("right", "self.right", "c0")
                 want = False if (consequence and overrides) else init
                 if fz is not want:
                     bad.setdefault(FROZEN_ASPECTS[2], f"{cfg}: component '{who}' is evaluated with is_frozen={fz!r}, documented {want!r}")
